@@ -116,6 +116,23 @@ def gen_cases(ctx, rng):
         cases.append({"dir": rng.choice(["upstream", "downstream"]), "chain": chain, "src": src, "ops": ops, "sink_delay": [sd], "interrupted": True,
                       "horizon": 3600 * 1000 * L.MS, "seed": 6000 + i})
         stats["interrupted"] += 1
+    # ... and with a ready receiver, the interrupt landing in any of the waits between the pieces (in particular the last one)
+    for i in range(60 if ctx.tier == "quick" else 1500):
+        a = rng.choice([8, 64, 500])
+        npieces = rng.range(2, 6)
+        d = rng.choice([20000, 50000])                                  # 20 / 50 ms between pieces
+        chain = [L.tx("slicer", name="s", average_size=a, size_variation=0, delay=d)] + ([L.tx("noop", name="q")] if rng.chance(1, 2) else [])
+        n = a * npieces - rng.range(0, a - 1) if rng.chance(1, 2) else a * npieces
+        src = [{"at": 1 * L.MS, "n": n}, {"at": 60000 * L.MS, "close": True}]
+        k = rng.range(0, npieces - 1)                                    # the wait after piece k+1 (the window after the last-but-one is k = npieces-2)
+        at = 1 * L.MS + k * d * 1000 + rng.range(1, d * 1000 - 1)
+        op = rng.choice(["add", "remove", "update_self", "reset"]) if len(chain) == 2 else rng.choice(["add", "update_self", "reset"])
+        ops = [{"add": {"at": at, "op": "add", "toxic": L.tx("noop", name="z")},
+                "remove": {"at": at, "op": "remove", "name": "q"}, "reset": {"at": at, "op": "reset"},
+                "update_self": {"at": at, "op": "update", "name": "s", "body": '{"attributes": {"average_size": %d}}' % a}}[op]]
+        cases.append({"dir": rng.choice(["upstream", "downstream"]), "chain": chain, "src": src, "ops": ops, "interrupted": True,
+                      "horizon": 3600 * 1000 * L.MS, "seed": 6500 + i})
+        stats["interrupted"] += 1
     return cases, stats
 
 
